@@ -76,6 +76,8 @@ TRANSLATORS = [
     ("locks_tr.py", "file_builder", "Locks.v"),
     ("edges_tr.py", "file_builder", "Edges.v"),
     ("skeleton_tr.py", "file_builder", "Decisions.v"),     # also writes Sites.v and Order.v
+    # build_dirs.py + created_files.py as Gallina; Proofs/BookGenLaws.v proves it equal to the hand-written model
+    ("bookkeeping_tr.py", "", "BookGen.v"),
 ]
 
 
